@@ -267,9 +267,6 @@ func (mc *MetricsCollector) updateAverageResponseTime(newResponseTime float64) {
 func (mc *MetricsCollector) GetMetrics() *Metrics {
 	mc.metrics.mutex.RLock()
 
-	// Update uptime (fast string operation)
-	mc.metrics.Uptime = time.Since(mc.metrics.StartTime).String()
-
 	// Get pooled metrics object to reduce allocations
 	metricsCopy := mc.metricsPool.Get().(*Metrics)
 
@@ -293,7 +290,8 @@ func (mc *MetricsCollector) GetMetrics() *Metrics {
 
 	// Copy non-atomic fields
 	metricsCopy.StartTime = mc.metrics.StartTime
-	metricsCopy.Uptime = mc.metrics.Uptime
+	// Compute uptime into the copy: the shared struct is only read-locked here
+	metricsCopy.Uptime = time.Since(mc.metrics.StartTime).String()
 
 	// Copy backend metrics using pooled objects
 	for name, backend := range mc.metrics.BackendMetrics {
